@@ -531,7 +531,9 @@ class Run:
         x, f = state["final"]
         rec.event(op="RESULT", digest=result_digest(result))
         cost = 0.5 * float(np.dot(f, f))
-        if not abs(float(result.cost) - cost) <= 1e-9 * (1 + abs(cost)):
+        rc = float(result.cost)
+        same_cost = rc == cost or (rc != rc and cost != cost) or abs(rc - cost) <= 1e-9 * (1 + abs(cost))
+        if not same_cost:
             rec.violate(
                 "C10/result-cost", "purity", f"Result.cost {float(result.cost)!r} != 0.5*|penalty(x_final)|^2 {cost!r}"
             )
